@@ -123,7 +123,8 @@ NewNameExp(s, d, e) ==   \* common part of CREATE / MKDIR / SYMLINK / MKNOD
 
 ExpCall(s, e) ==
   LET o == ObjOf(s, e.fh) IN
-  CASE e.proc \in {"NULL", "MNULL", "MNT", "UMNT", "UMNTALL", "DUMP", "EXPORT"} -> "OK"   \* MOUNT procedures: no effect
+  CASE e.proc \in {"MNT", "UMNT"} /\ e.nlen > 1024 -> "ANY"    \* longer than MNTPATHLEN: not a well-formed MOUNT message
+    [] e.proc \in {"NULL", "MNULL", "MNT", "UMNT", "UMNTALL", "DUMP", "EXPORT"} -> "OK"   \* MOUNT procedures: no effect
     [] e.proc \in {"GETATTR", "ACCESS", "FSINFO", "PATHCONF"} -> WithH(s, e.fh, "OK")
     [] e.proc \in {"MKNOD", "LINK", "FSSTAT"} -> "ERR"
     [] e.proc = "SETATTR" ->
